@@ -1114,6 +1114,36 @@ def deref_diff(a, b):
     return n > 0
 
 
+def unescape_token(t):
+    out = bytearray()
+    i = 0
+    while i < len(t):
+        ch = t[i:i + 1]
+        if ch == b"\\" and i + 1 < len(t):
+            nx = t[i + 1:i + 2]
+            if nx == b"x" and i + 3 < len(t) + 1:
+                out.append(int(t[i + 2:i + 4], 16)); i += 4
+            else:
+                out += nx; i += 2
+        elif ch == b'"':
+            i += 1
+        else:
+            out += ch; i += 1
+    return bytes(out)
+
+
+def first_raw_in_text(text):
+    """hex name of the first RAW field line of a fragment text (None if there is none)"""
+    for ln in strip_header(text):
+        if not ln or ln.startswith((b"/", b"#")):
+            continue
+        nm = first_token_raw(ln)
+        rest = ln[len(nm):].lstrip(b" ")
+        if rest.startswith(b"RAW "):
+            return hx(unescape_token(nm))
+    return None
+
+
 def first_token_raw(ln):
     """the first token of a written line, escapes left in place"""
     i = 0
@@ -1592,7 +1622,19 @@ def main():
                          "(gd_reference() = NULL) although RAW fields remain; after flush+reopen one of them is the reference field: %s | %s" % (x[:80], y[:80]),
                          dict(replay, reopen=tag))
                     continue
-                if x.startswith("R ") and y.startswith("R ") and c.dstd < 6:
+                if c.dstd < 6 and ((x.startswith("R ") and y.startswith("R ")) or
+                                   (x.startswith("G 0 ") and re.sub(r" ref=\S+", "", x) == re.sub(r" ref=\S+", "", y))):
+                    # reader rule (dirfile-format(5)): without /REFERENCE the first RAW field in file order is the reference field
+                    after_ref = y[2:].strip() if y.startswith("R ") else kv(y.split()[2:]).get("ref")
+                    want_ref = first_raw_in_text(r_["text"].get(0) or b"")
+                    if want_ref is not None and after_ref != want_ref:
+                        viol("reopen/reference-rule", "without /REFERENCE the reopened dirfile nominates %s, the first RAW field of the format file is %s (case %s)" % (
+                            after_ref, want_ref, c.cid), dict(replay, reopen=tag))
+                        continue
+                    viol(KREF5, "below Standards Version 6 no /REFERENCE is written; the reopened dirfile takes the first RAW field in file order, "
+                         "which is not the reference field the database had: %s | %s" % (x[:60], y[:60]), dict(replay, reopen=tag))
+                    continue
+                if False:
                     viol(KREF5, "below Standards Version 6 no /REFERENCE is written and the parser nominates the LAST RAW field of the fragment "
                          "(first_raw is overwritten by every field line): the reference field changes from %s to %s on reopen" % (x[2:], y[2:]), dict(replay, reopen=tag))
                     continue
